@@ -8,6 +8,10 @@ R6.2 computed-location coverage: _LOC_FUNCS has a function for every class of th
      the ast module (minus the frozen "no location by design" set).
 R6.3 line / column pairing: a store to X.end_col_offset that is guarded by a line comparison must be guarded by X.end_lineno,
      a store to X.col_offset by X.lineno (a column belongs to the line of the same end of the node).
+R6.4 line / column pairing of conversions: in `lines[<P>ln].c2b(<Q>col)` / `lines[<P>ln][<Q>col ...]` the column belongs to the line
+     (same name prefix: end_ln with end_col, ...).
+R6.5 lexicographic order: two (line, column) positions are never ordered by comparing lines and columns independently
+     (`l1 < l2 or c1 < c2`); one reviewed site where an invariant makes the expression an inequality test.
 Not decided: correctness of the source scans (next_frag, pars(), _loc_*), find_*loc against brute force (depend on the text).
 """
 from __future__ import annotations
